@@ -46,6 +46,7 @@ func (op *CreateOperation) Apply(snapshot *Snapshot) {
 		targetId:   opId,
 		Message:    op.Message,
 		Author:     op.Author(),
+		Files:      op.Files,
 		unixTime:   timestamp.Timestamp(op.UnixTime),
 	}
 
